@@ -12,7 +12,10 @@ This private submodule is *not* intended for importation by downstream callers.
 '''
 
 # ....................{ IMPORTS                            }....................
-from beartype.roar import BeartypeConfShellVarException
+from beartype.roar import (
+    BeartypeConfParamException,
+    BeartypeConfShellVarException,
+)
 from beartype.roar._roarwarn import BeartypeConfShellVarWarning
 from beartype._data.func.datafuncarg import ARG_VALUE_UNPASSED
 from beartype._data.typing.datatyping import (
@@ -68,6 +71,25 @@ def get_is_color(is_color: BoolTristateUnpassable) -> BoolTristate:  # pyright: 
         set to an unrecognized string (i.e., neither ``"True"``, ``"False"``,
         nor ``"None"``).
     '''
+
+    # If the caller explicitly passed an "is_color" parameter that is *NOT* a
+    # tri-state boolean, raise an exception.
+    #
+    # Note that this parameter is validated here rather than deferred to the
+    # subsequent validation of all parameters. The external shell environment
+    # variable tested below overrides this parameter and would otherwise
+    # silently mask an invalid parameter whenever that variable is set.
+    if not (
+        is_color is ARG_VALUE_UNPASSED or
+        is_color is None or
+        isinstance(is_color, bool)
+    ):
+        raise BeartypeConfParamException(
+            f'Beartype configuration parameter "is_color" '
+            f'value {repr(is_color)} not tri-state boolean '
+            f'(i.e., "True", "False", or "None").'
+        )
+    # Else, this parameter is either unpassed *OR* a tri-state boolean.
 
     # String value of the external shell environment variable
     # "${BEARTYPE_IS_COLOR}" globally overriding the passed "is_color" parameter
